@@ -291,6 +291,20 @@ pub fn parse_remaining_accounts<'info>(remaining_accounts: &[AccountInfo<'info>]
     ensures r == parsed_remaining(remaining_accounts@, *remaining_accounts_info)
 { unimplemented!() }
 pub uninterp spec fn parsed_remaining<'info>(rem: Seq<AccountInfo<'info>>, info: Option<RemainingAccountsInfo>) -> Result<ParsedRemainingAccounts<'info>>;
+// ------------------------------------------------------------------ parse_remaining_accounts: the slot a slice is stored in (segment of the real body)
+//@ const util/v2/remaining_accounts_utils.rs pub MAX_SUPPLEMENTAL_TICK_ARRAYS_LEN
+/// the field of the parsed result that belongs to an accounts type
+pub open spec fn slot_of<'info>(p: ParsedRemainingAccounts<'info>, t: AccountsType) -> Option<Vec<AccountInfo<'info>>> { match t { AccountsType::TransferHookA => p.transfer_hook_a, AccountsType::TransferHookB => p.transfer_hook_b, AccountsType::TransferHookReward => p.transfer_hook_reward, AccountsType::TransferHookInput => p.transfer_hook_input, AccountsType::TransferHookIntermediate => p.transfer_hook_intermediate, AccountsType::TransferHookOutput => p.transfer_hook_output, AccountsType::SupplementalTickArrays => p.supplemental_tick_arrays, AccountsType::SupplementalTickArraysOne => p.supplemental_tick_arrays_one, AccountsType::SupplementalTickArraysTwo => p.supplemental_tick_arrays_two, AccountsType::TransferHookDepositA => p.transfer_hook_deposit_a, AccountsType::TransferHookDepositB => p.transfer_hook_deposit_b, AccountsType::TransferHookWithdrawalA => p.transfer_hook_withdrawal_a, AccountsType::TransferHookWithdrawalB => p.transfer_hook_withdrawal_b } }
+pub open spec fn is_supplemental(t: AccountsType) -> bool { t is SupplementalTickArrays || t is SupplementalTickArraysOne || t is SupplementalTickArraysTwo }
+/// C15 / C16: a slice of remaining accounts is stored in the slot of ITS accounts type and nowhere else; a second slice of the same type is rejected (so no slice is
+/// silently dropped), and at most three supplemental tick arrays are accepted per slot
+//@ seg util/v2/remaining_accounts_utils.rs parse_remaining_accounts from=/^        match slice\.accounts_type \{/ to=/^    \}\n\n    Ok\(parsed_remaining_accounts\)/ var=parsed_remaining_accounts ret=Ok(parsed_remaining_accounts)
+fn pra_store_slice<'info>(parsed_remaining_accounts_in: ParsedRemainingAccounts<'info>, slice: &RemainingAccountsSlice, accounts: Vec<AccountInfo<'info>>) -> (r: Result<ParsedRemainingAccounts<'info>>)
+    ensures
+        r is Ok <==> (slot_of(parsed_remaining_accounts_in, slice.accounts_type) is None && (is_supplemental(slice.accounts_type) ==> accounts@.len() <= 3)), //# C15 C16
+        r matches Ok(p) ==> slot_of(p, slice.accounts_type) == Some(accounts)
+            && (forall|t: AccountsType| t != slice.accounts_type ==> #[trigger] slot_of(p, t) == slot_of(parsed_remaining_accounts_in, t)), //# C15 C16
+//@ end
 pub open spec fn sup_keys(v: Option<Vec<AccountInfo<'_>>>) -> Option<Seq<Pubkey>> { match v { Some(x) => Some(keys_of(x@)), None => None } }
 pub mod transfer_memo { pub const TRANSFER_MEMO_SWAP: &'static str = "Orca Trade"; }
 #[verifier::external_body]
